@@ -10,6 +10,16 @@ claim("C01", "lockset dataflow + CFG must-pass/dominance + feasibility + sibling
       "Not covered: what the kernel does with the bytes, byte-for-byte equality at the peer, sendfile offset arithmetic beyond the matched pattern, peer pacing, UDP.",
       "DESIGN.md §4 C01")
 
+claim("C03", "branch-edge dominance + lockset atomic regions + frozen who-may-call sets over go/ssa",
+      "Decides the code shape behind exactly-once close and closed-check-first on every path: each teardown call is dominated by the !closed edge and closed=true inside one critical section; the close/open notification fields, deleteConn and close(fd) have exactly the frozen caller sets; open/close use the same type predicate and the connection WaitGroup Add/Done sites are the frozen sets; every effect of Write/Writev/Sendfile/Read/Execute/SetDeadline/modWrite/resetRead/flush is dominated by the !closed edge and the closed edge is inert and returns the closed indication; table removal precedes close(fd); open precedes registration; closeErr has only its two writers; dial success must be dominated by evidence of establishment (open known finding).",
+      "Not covered: histories and interleavings as such, descriptor reuse by the kernel, UDP session races. Known finding (open): truthful/always-reported async dial result, see known_findings.json.",
+      "DESIGN.md §4 C03")
+
+claim("C04", "CFG must-pass queries + lockset + constant-mask folding over go/ssa",
+      "Decides the invariant flush liveness rests on (queue non-empty => write interest registered) as code shape: arm after every enqueue before the mutex is released; disarm only under the mutex on the queue-empty edge; flag and epoll registration change together; the epoll interest masks carry the required bits in every mode branch; flush is dispatched only from the poller's write-event edge; the one-shot re-arm chooses by queue state under the mutex; a registration issued after a user callback reconciles the backlog it created; every one-shot dispatch path re-registers the descriptor. Four genuine defects found and repaired (known_findings.json).",
+      "Not covered: that the kernel delivers the event, eventual delivery itself, edge-triggered timing.",
+      "DESIGN.md §4 C04")
+
 PENDING = "check not built yet in this round (static rule tables are being added property by property; see DESIGN.md §4 for the planned obligations)"
-for pid in ["C02","C03","C04","C05","C06","C07","C08","C09","C10","C11","C12","C13","C14","C15","C16","C18","C19","C20"]:
+for pid in ["C02","C05","C06","C07","C08","C09","C10","C11","C12","C13","C14","C15","C16","C18","C19","C20"]:
     na(pid, PENDING)
